@@ -9,6 +9,7 @@ import (
 
 	"github.com/gobuffalo/pop/v6"
 	"github.com/gofrs/uuid"
+	"github.com/ory/herodot"
 	"github.com/ory/x/popx"
 	"github.com/pkg/errors"
 
@@ -91,6 +92,11 @@ func internalPaginationFromOptions(opts ...x.PaginationOptionSetter) (*internalP
 	}
 	if ip.PerPage == 0 {
 		ip.PerPage = defaultPageSize
+	}
+	if ip.PerPage < 0 {
+		// a negative LIMIT means "no limit" to some databases, and the
+		// has-more test below would then cut rows off the only page
+		return ip, errors.WithStack(herodot.ErrBadRequest.WithReason("the page size must not be negative"))
 	}
 	return ip, ip.parsePageToken(xp.Token)
 }
